@@ -87,7 +87,7 @@ func TestC11Concurrent(t *testing.T) {
 	ev := Ev("C11")
 	ev.SetRule("rapid: 4-8 goroutines each running 4-14 generated operations (Index, Delete, Batch, Search with and without a deadline, Search with a context cancelled before or during the call, Document, DocCount, Fields, FieldDict (closed), Stats/StatsMap, ForceMerge, CopyTo, Set/GetInternal) with one Close issued by a generated goroutine at a generated position, on scorch disk/memory and upsidedown gtreap/boltdb, under a seeded delay plan and GOMAXPROCS in {2,4,16}; the binary is built with -race. " +
 		"Oracle: no goroutine panics, no async error callback, the race detector stays silent (non-zero exit with a race log), every call returns within the 60 s watchdog, Close returns, every call started after Close returned yields ErrorIndexClosed, calls overlapping Close yield a result or that error, a search cancelled before it starts returns the context error, a search cancelled in flight returns a result or the context error and the next search works; 2 s after Close no goroutine has a frame in bleve and no fd/mmap of the index remains; " +
-		"one case in four on scorch disk uses a maintenance profile (mostly CopyTo, Batch, ForceMerge; Close last) so that backups overlap each other and the persister's clean-up; non-trivial = >=4 goroutines ran and Close started while >=1 write or >=1 search was in flight, or two backups overlapped")
+		"three cases in four on scorch disk aim Close at a window (the first background goroutines reaching a drawn hook point - mostly the hand-off points before an introduction - wait there until Close has started; for merge points two goroutines begin with a batch and a forced merge); one case in four on scorch disk uses a maintenance profile (mostly CopyTo, Batch, ForceMerge; Close last) so that backups overlap each other and the persister's clean-up; non-trivial = >=4 goroutines ran and Close started while >=1 write or >=1 search was in flight, or two backups overlapped")
 	ev.Assume("schedules are sampled, not enumerated; data races are found only when the detector sees both accesses in one run")
 	checkPropN(t, "C11", 80, func(t *rapid.T) {
 		cfg := Config{Engine: rapid.SampledFrom([]string{EngScorchDisk, EngScorchDisk, EngScorchMem, EngUDGtreap, EngUDBolt}).Draw(t, "engine")}
@@ -119,6 +119,49 @@ func TestC11Concurrent(t *testing.T) {
 		defer runtime.GOMAXPROCS(old)
 		InstallHook(HookPlan{Mode: "delay", DelaySeed: seed, DelayMaxUS: 500})
 		defer ClearHook()
+		// Close aimed at a window: the first background goroutines to reach one drawn hook point
+		// (a point at which they hold no lock) wait there until Close has started
+		holdPoint := ""
+		if cfg.Engine == EngScorchDisk && rapid.IntRange(0, 3).Draw(t, "aimClose") != 0 {
+			// mostly the hand-off points, at which a goroutine is about to pass work to another one
+			if rapid.IntRange(0, 3).Draw(t, "closeAt.any") == 0 {
+				holdPoint = rapid.SampledFrom(sortedKeys(lockFreePoints)).Draw(t, "closeAt.point")
+			} else {
+				holdPoint = rapid.SampledFrom(append([]string{"batch.beforeIntroduce"}, RendezvousPoints...)).Draw(t, "closeAt.handoff")
+			}
+			if v := os.Getenv("VERIF_DEBUG_HOLDPOINT"); v != "" {
+				holdPoint = v
+			}
+			if strings.HasPrefix(holdPoint, "merge.") {
+				// make sure a file merge is under way: two other goroutines start with a batch
+				// and a forced merge
+				for g, n := 0, 0; g < ng && n < 2; g++ {
+					if g != closer && len(plans[g]) >= 2 {
+						plans[g][0] = c11Op{Kind: "batch", N: 3, Text: "a ab"}
+						plans[g][1] = c11Op{Kind: "forcemerge"}
+						n++
+					}
+				}
+			}
+		}
+		holdExtra := time.Duration(rapid.SampledFrom([]int{0, 200, 2000, 10000}).Draw(t, "closeAt.extraUS")) * time.Microsecond
+		var closeStartedP atomic.Pointer[atomic.Bool]
+		var held atomic.Int64
+		if holdPoint != "" {
+			SetOnPoint(func(p string) {
+				if p != holdPoint || held.Add(1) > 3 {
+					return
+				}
+				for dl := time.Now().Add(300 * time.Millisecond); time.Now().Before(dl); {
+					if cs := closeStartedP.Load(); cs != nil && cs.Load() {
+						time.Sleep(holdExtra) // let Close get as far as stopping the other goroutines
+						break
+					}
+					time.Sleep(100 * time.Microsecond)
+				}
+			})
+			defer SetOnPoint(nil)
+		}
 		c11AsyncErr = atomic.Value{}
 		dir := TempDir(t)
 		idxDir := filepath.Join(dir, "idx")
@@ -130,6 +173,7 @@ func TestC11Concurrent(t *testing.T) {
 			_ = idx.Index(id, map[string]interface{}{"t": Vocab[i] + " " + Vocab[i+1]})
 		}
 		var closeStarted, closeReturned atomic.Bool
+		closeStartedP.Store(&closeStarted)
 		var inflightWrites, inflightSearches, overlapW, overlapS, inflightCopies, overlapCopies atomic.Int64
 		var problems sync.Map
 		report := func(g, i int, op c11Op, format string, a ...interface{}) {
@@ -345,6 +389,9 @@ func TestC11Concurrent(t *testing.T) {
 		}
 		if maintenance {
 			cl = append(cl, "maintenance-profile")
+		}
+		if holdPoint != "" && held.Load() > 0 {
+			cl = append(cl, "close-aimed-at-a-background-window")
 		}
 		if overlapCopies.Load() >= 1 {
 			cl = append(cl, "overlapping-backups")
